@@ -96,6 +96,66 @@ def run(F, tier, res):
             if good:
                 ok += 1
     res.rule('C14.PAIRING', n, 2, 'call sites of the file-header composer %s: guarded by handled != current, followed by handled := current' % [c.split('::')[-1] for c in composers], discharged=ok)
+    # REARM: a write to current_file_pair re-arms the `handled != current` test. Outside the per-section reset (which also clears
+    # `handled`), every such write must be followed, on every path to the function's return, by the header decision itself (the
+    # comparison, or a call into the generic header writer's decision function); otherwise a header already written for this
+    # section is written again when the pending-header check next runs (next `diff` line, commit line, end of input).
+    def has_cmp(fn):
+        for j, cc in F.calls(fn):
+            if callee_of(cc).endswith(('::ne', '::eq')):
+                fl = set()
+                for a in cc['args'][:2]:
+                    for rr in F.trace(fn, a):
+                        if rr[0] in ('param', 'local') and rr[2]:
+                            fl.add(rr[2][-1])
+                if {HANDLED, CURRENT} <= fl:
+                    return True
+        return False
+    generic = [q for q in F.fn_bodies if q.endswith('::write_generic_diff_header_header_line')]
+    if not generic:
+        res.anchor_missing('write_generic_diff_header_header_line')
+    deciders = set()
+    for q in F.fn_bodies:
+        if 'StateMachine' not in ' '.join(F.bodies[q]['mir']['locals'][1:2]):
+            continue
+        rq = F.reachable_from([q])
+        if has_cmp(q) or any(g in rq for g in generic):
+            deciders.add(q)
+    nr = okr = 0
+    for q in sorted(F.fn_bodies):
+        ws = [w for w in Ru.field_writes(F, q, None, CURRENT) if w[2] in ('assign', 'call') and w[1] and w[1][-1][1] == CURRENT]
+        if not ws:
+            continue
+        clears_handled = any(w[2] == 'assign' and w[1][-1][1] == HANDLED and w[3][2][0] == 'agg' for w in Ru.field_writes(F, q, None, HANDLED)) or \
+            any(w[2] == 'assign' and w[1][-1][1] == HANDLED for w in Ru.field_writes(F, q, None, HANDLED))
+        for w in ws:
+            nr += 1
+            bb = w[0]
+            if clears_handled:
+                okr += 1
+                continue
+            dec = set()
+            for j, cc in F.calls(q):
+                cal = callee_of(cc)
+                if cal in deciders and cal != q:
+                    dec.add(j)
+                if cal.endswith(('::ne', '::eq')):
+                    fl = set()
+                    for a in cc['args'][:2]:
+                        for rr in F.trace(q, a):
+                            if rr[0] in ('param', 'local') and rr[2]:
+                                fl.add(rr[2][-1])
+                    if {HANDLED, CURRENT} <= fl:
+                        dec.add(j)
+            errexits = {j for j, cc in F.calls(q) if 'from_residual' in callee_of(cc)}
+            S = F.cfg(q)
+            miss = Ru.must_pass(F, q, S.get(bb, []), dec | errexits) if bb not in dec else []
+            if miss:
+                res.violate('REARM', 'fn=%s' % q, 'current_file_pair is rewritten and the handler returns without taking the header decision: a file header already written '
+                            'for this section is written a second time when the pending-header check next runs', where=F.bodies[q]['mir']['span']['at'])
+            else:
+                okr += 1
+    res.rule('C14.REARM', nr, 4, 'writes to current_file_pair: in the per-section reset, or followed on every path by the header decision (deciders: %s)' % sorted(d.split('::')[-1] for d in deciders), discharged=okr)
     # RESET-ORDER (shared with C10): the pending header of the previous section is flushed before the fields it reads are overwritten
     from .c10 import reset_order_rule, reset_rule, find_resetters
     rs_, bd_ = find_resetters(F)
